@@ -488,8 +488,12 @@ def hist_trace(tdgl, args, tmp):
     film = _poly(tdgl, spec["film"], "film")
     holes = [_poly(tdgl, h, f"hole{k}") for k, h in enumerate(spec["holes"])]
     terms = [_poly(tdgl, t, f"term{k}") for k, t in enumerate(spec["terminals"])]
-    d0 = tdgl.Device("dev", layer=layer, film=film, holes=holes, terminals=terms)
-    d0.make_mesh(**spec["mesh"])
+    key = hist_key(args["chain"], args["device"])
+    try:
+        d0 = tdgl.Device("dev", layer=layer, film=film, holes=holes, terminals=terms)
+        d0.make_mesh(**spec["mesh"])
+    except Exception as ex:     # the fixed, plain device of the histories cannot even be built / meshed: an observation
+        return {"kind": "histfail", "key": key, "exc": type(ex).__name__, "msg": str(ex)[:200]}
     devs = [d0]
     dx, dy = args.get("shift", (1.25, -0.75))
     key = hist_key(args["chain"], args["device"])
